@@ -111,6 +111,12 @@ func (s *sortedSet[ElementType, WeightType]) addSorted(element ElementType) {
 				defer s.mutex.Unlock()
 			}
 
+			// the element was deleted while this update was waiting for the mutex (it is unsubscribed after the
+			// mutex is released)
+			if listElement.deleted {
+				return
+			}
+
 			listElement.weight = newWeight
 
 			s.updatePosition(listElement)
@@ -120,12 +126,21 @@ func (s *sortedSet[ElementType, WeightType]) addSorted(element ElementType) {
 
 // deleteSorted deletes the given element from the sortedElements slice.
 func (s *sortedSet[ElementType, WeightType]) deleteSorted(element ElementType) {
+	// unsubscribe from weight updates only after the mutex is released: unsubscribing waits for a running weight
+	// callback, which in turn waits for the mutex
+	var unsubscribeFromWeightUpdates func()
+	defer func() {
+		if unsubscribeFromWeightUpdates != nil {
+			unsubscribeFromWeightUpdates()
+		}
+	}()
+
 	s.mutex.Lock()
 	defer s.mutex.Unlock()
 
 	if deletedElement, deleted := s.elements.DeleteAndReturn(element); deleted {
-		// unsubscribe from weight updates
-		deletedElement.unsubscribeFromWeightUpdates()
+		deletedElement.deleted = true
+		unsubscribeFromWeightUpdates = deletedElement.unsubscribeFromWeightUpdates
 
 		// shift all elements to the right of the deleted element one position to the left
 		for i := deletedElement.index; i < len(s.sortedElements)-1; i++ {
@@ -235,6 +250,9 @@ type sortedSetElement[ElementType comparable, WeightType cmp.Ordered] struct {
 
 	// unsubscribeFromWeightUpdates is the function that is used to unsubscribe from weight updates.
 	unsubscribeFromWeightUpdates func()
+
+	// deleted is set (under the mutex of the set) when the element was removed from the sortedElements slice.
+	deleted bool
 }
 
 // newSortedSetElement creates a new sortedSetElement instance.
